@@ -211,6 +211,7 @@ def _execute(spec, ses):
                 pass
         counters["user_edits"] = edited
         if edited:
+            gc.collect()  # planner temporaries of earlier computes are gone: sources get re-instantiated
             for t in recipe["targets"]:
                 d = det.get(str(t), {})
                 for what, coll_, ref_ in [("target", pool[t], refs[t])] + ([("projection", probes_[t][0], probes_[t][1])] if t in probes_ else []):
